@@ -313,14 +313,24 @@ fn g_case(src: &mut Src, obs: &mut Obs) -> CaseResult {
             obs.label("authdata");
             let line = if mc {
                 let model = types::gen(T::McExt, src, &mut ti);
-                let id = src.bytes(20);
+                // lengths over the whole legal range, and sums on both sides of the 676-byte capacity
+                let idl = match src.below(5) {
+                    0 => 20,
+                    1 => 255,
+                    2 => src.range(240, 256),
+                    3 => src.range(0, 700),
+                    _ => src.range(0, 255),
+                };
+                let keyl = *src.pick(&[77usize, 42, 78, 110, 256, 253, 250, 0, 300]);
+                let id = src.bytes(idl);
+                let key = src.bytes(keyl);
                 match types::build_mc_ext(&model) {
                     Ok(ext) => {
                         let ad = ctap2::make_credential::AuthenticatorData {
                             rp_id_hash: &h,
                             flags,
                             sign_count: count,
-                            attested_credential_data: Some(ctap2::make_credential::AttestedCredentialData { aaguid: &[7; 16], credential_id: &id, credential_public_key: &[9; 77] }),
+                            attested_credential_data: Some(ctap2::make_credential::AttestedCredentialData { aaguid: &[7; 16], credential_id: &id, credential_public_key: &key }),
                             extensions: Some(ext),
                         };
                         ad.serialize().map(|b| hex(&b)).unwrap_or("ERROR".into())
